@@ -101,6 +101,7 @@ func (v Vars) render() map[string]string {
 	f["misc/m.txt"] = "m\n"
 	f["misc/gen/g.txt"] = "decoy\n" // named like a declared output, relative to misc/
 	f["misc/out/mid"] = "decoy\n"
+	f["misc/out/gen.side"] = "decoy\n"
 	switch v.Link {
 	case 1:
 		f["dir/link"] = symlinkPrefix + "../misc/n.txt"
